@@ -198,11 +198,53 @@ type Data struct {
 
 const guard = 48
 
+// bufs is a process-wide free list of large buffers: the replay draws hundreds of MiB of inputs, and
+// fresh allocations (page faults, GC) would cost more than the encoders under test.
+var bufs [][]byte
+
+func getBuf(n int) []byte {
+	for i, b := range bufs {
+		if cap(b) >= n {
+			bufs[i] = bufs[len(bufs)-1]
+			bufs = bufs[:len(bufs)-1]
+			return b[:n]
+		}
+	}
+	if n < 4096 {
+		return make([]byte, n)
+	}
+	return make([]byte, n, n+n/4)
+}
+
+func putBuf(b []byte) {
+	if cap(b) >= 4096 && len(bufs) < 64 {
+		bufs = append(bufs, b[:0])
+	}
+}
+
+// fillRandom overwrites b with pseudo-random bytes.
+func fillRandom(rng *hx.RNG, b []byte) {
+	for i := 0; i < len(b); i += 8 {
+		v := rng.U64()
+		for j := 0; j < 8 && i+j < len(b); j++ {
+			b[i+j] = byte(v >> (8 * j))
+		}
+	}
+}
+
+// Release hands the memory of an input back to the free list (the input must not be used afterwards).
+func (d *Data) Release() {
+	putBuf(d.back)
+	putBuf(d.golden)
+	d.back, d.golden, d.Bytes = nil, nil, nil
+}
+
 // GenData draws the bytes of a data class. The slice handed out sits inside a larger array with
 // guard zones on both sides; its capacity extends 16 bytes into the trailing guard zone.
 func GenData(rng *hx.RNG, cls string) *Data {
 	n := sizeOf(rng, cls)
-	back := rng.Bytes(guard + n + guard)
+	back := getBuf(guard + n + guard)
+	fillRandom(rng, back)
 	d := back[guard : guard+n : guard+n+16]
 	kind := "random"
 	sel := cls
@@ -235,7 +277,9 @@ func GenData(rng *hx.RNG, cls string) *Data {
 			kind = "nil"
 		}
 	}
-	return &Data{Class: cls, Kind: kind, Bytes: d, back: back, golden: append([]byte(nil), back...)}
+	golden := getBuf(len(back))
+	copy(golden, back)
+	return &Data{Class: cls, Kind: kind, Bytes: d, back: back, golden: golden}
 }
 
 // Pristine returns the original input bytes.
@@ -268,7 +312,7 @@ func (a *Arena) Cut(rng *hx.RNG, l, c int) []byte {
 		a.mem[i] = 0xC3
 		a.mem[guard+c+i] = 0x3C
 	}
-	copy(a.mem[guard:guard+l], rng.Bytes(l))
+	fillRandom(rng, a.mem[guard:guard+l])
 	return a.mem[guard : guard+l : guard+c]
 }
 
